@@ -20,12 +20,13 @@ def alphabets(lo=0, hi=3, syms=SYMS):
 
 
 def finals(draw, Q):
-    mode = draw(st.sampled_from(["rand", "rand", "rand", "rand", "empty", "all"]))
-    if mode == "empty":
+    mode = draw(st.integers(0, 11))
+    if mode == 0:
         return []
-    if mode == "all":
+    if mode == 1:
         return list(Q)
-    return [q for q in Q if draw(st.booleans())]
+    mask = draw(st.integers(1, 2 ** len(Q) - 1))
+    return [q for i, q in enumerate(Q) if mask >> i & 1]
 
 
 @st.composite
